@@ -1,4 +1,9 @@
 // Package c11 decides C11: maps.Bimap keeps its two directions mutually inverse.
+//
+// Units: C11.enum / C11.rand (small universes, every collision pattern, model after every call),
+// C11.types (the same machine over other key/value instantiations: zero values, equal-but-distinct
+// floats, interfaces, zero-size types, types with methods; types_test.go), C11.big (hundreds to
+// thousands of pairs: size thresholds, shrink/grow sweeps, Clear/Clone/Range on big maps; big_test.go).
 package c11
 
 import (
@@ -16,13 +21,45 @@ type K int
 type V int
 
 const (
-	uniK     = 4 // keys 0..3 are used by Add; key 4 is never added (probe only)
-	uniV     = 4
+	uniAdd   = 4 // universe elements 0..3 are used by Add
+	uniAll   = 6 // elements 4 and 5 are probe-only (never added, unless == to an addable one in a degenerate universe)
 	maxBoxes = 4
 )
 
-func key(a int) K { return K(mod(a, uniK)) }
-func val(b int) V { return V(100 + mod(b, uniV)) }
+// universe is the small key/value universe one history runs over. Elements are
+// compared with Go's == everywhere (model and oracle), which is the Bimap's
+// key equality (K, V comparable); names are only for messages.
+type universe[KT, VT comparable] struct {
+	name   string
+	keys   []KT // len uniAll
+	vals   []VT // len uniAll
+	kn, vn []string
+}
+
+func (u *universe[KT, VT]) key(a int) KT { return u.keys[mod(a, uniAdd)] }
+func (u *universe[KT, VT]) val(b int) VT { return u.vals[mod(b, uniAdd)] }
+func (u *universe[KT, VT]) kname(k KT) string {
+	for i, x := range u.keys {
+		if x == k {
+			return u.kn[i]
+		}
+	}
+	return fmt.Sprintf("<foreign key %v>", k)
+}
+func (u *universe[KT, VT]) vname(v VT) string {
+	for i, x := range u.vals {
+		if x == v {
+			return u.vn[i]
+		}
+	}
+	return fmt.Sprintf("<foreign value %v>", v)
+}
+
+var uniDefault = &universe[K, V]{
+	name: "K(int)->V(int)",
+	keys: []K{0, 1, 2, 3, 4, 5}, vals: []V{100, 101, 102, 103, 104, 105},
+	kn: []string{"0", "1", "2", "3", "4", "5"}, vn: []string{"100", "101", "102", "103", "104", "105"},
+}
 
 func mod(x, m int) int { return ((x % m) + m) % m }
 
@@ -35,9 +72,10 @@ const (
 	opClone     = 4 // Clone box H; the clone becomes a new box (or replaces box B mod live when 4 boxes are alive)
 	opRange     = 5 // Range over everything
 	opRangeStop = 6 // Range, f returns false on call number 1 + A mod 3
-	opProbe     = 7 // Get*/Contains* for key A mod 6 and value 100 + B mod 6 (4, 5 are never added)
+	opProbe     = 7 // Get*/Contains* for key A mod 6 and value B mod 6 (4, 5 are never added)
 	opLen       = 8 // Len
-	nOps        = 9
+	opNested    = 9 // Range whose callback only READS this Bimap or its clones (variant B mod 5, see nestedCheck)
+	nOps        = 10
 )
 
 type Op struct {
@@ -48,59 +86,62 @@ type Op struct {
 }
 
 // Case: Start 0 = zero-value Bimap; 1 = Clone of a zero-value Bimap; 2 = Clone
-// of a Bimap holding {0:100, 1:101} (the original stays alive as box 1).
+// of a Bimap holding {key0:val0, key1:val1} (the original stays alive as box 1).
 type Case struct {
 	Start int  `json:"start"`
 	Ops   []Op `json:"ops"`
 }
 
-const rule = "boxes = live Bimap[K,V] values (start: zero value | Clone of zero value | Clone of a populated map with the original kept alive; Clone ops add boxes, max 4), " +
-	"each with its own model (list of pairs; Add(k,v) deletes every pair with key k or value v, then inserts); keys 0..3, values 100..103; " +
-	"after EVERY call, for EVERY live box and every key 0..4 and value 100..104: GetForward/GetReverse/ContainsForward/ContainsReverse agree with the model, " +
+const rule = "boxes = live Bimap values (start: zero value | Clone of zero value | Clone of a populated map with the original kept alive; Clone ops add boxes, max 4), " +
+	"each with its own model (list of pairs; Add(k,v) deletes every pair with key k or value v, then inserts); 4 addable keys and values + 2 probe-only ones; " +
+	"after EVERY call, for EVERY live box and every key and value of the universe: GetForward/GetReverse/ContainsForward/ContainsReverse agree with the model, " +
 	"GetForward(k)=(v,true) <=> GetReverse(v)=(k,true) on the library's own answers, Len = number of pairs (so a change leaking through a Clone shows up in the other box); " +
 	"Range visits exactly the model's pairs once each; Range with early stop calls f exactly min(stop,Len) times on distinct pairs of the map; " +
+	"nested Range: the callback of a Range runs read-only calls on the same Bimap (an inner full Range at one or at every outer call, a third level, an inner early-stopped Range, Clone+lookups+Len, or Ranges over the other live boxes) " +
+	"and every level must still visit every pair exactly once (no mutator is ever called inside a callback); " +
 	"non-trivial = history has an Add colliding on the key only, one colliding on the value only, and one colliding on both with different partners (three-pair eviction)"
 
-type pair struct {
-	k K
-	v V
+type pair[KT, VT comparable] struct {
+	k KT
+	v VT
 }
 
 // box is one live Bimap plus its model.
-type box struct {
-	b     *maps.Bimap[K, V]
-	pairs []pair // model, insertion order (order is irrelevant to every verdict)
+type box[KT, VT comparable] struct {
+	b     *maps.Bimap[KT, VT]
+	u     *universe[KT, VT]
+	pairs []pair[KT, VT] // model, insertion order (order is irrelevant to every verdict)
 }
 
-func (x *box) fwd(k K) (V, bool) {
+func (x *box[KT, VT]) fwd(k KT) (v VT, ok bool) {
 	for _, p := range x.pairs {
 		if p.k == k {
 			return p.v, true
 		}
 	}
-	return 0, false
+	return v, false
 }
 
-func (x *box) rev(v V) (K, bool) {
+func (x *box[KT, VT]) rev(v VT) (k KT, ok bool) {
 	for _, p := range x.pairs {
 		if p.v == v {
 			return p.k, true
 		}
 	}
-	return 0, false
+	return k, false
 }
 
-func (x *box) modelAdd(k K, v V) {
+func (x *box[KT, VT]) modelAdd(k KT, v VT) {
 	kept := x.pairs[:0:0]
 	for _, p := range x.pairs {
 		if p.k != k && p.v != v {
 			kept = append(kept, p)
 		}
 	}
-	x.pairs = append(kept, pair{k, v})
+	x.pairs = append(kept, pair[KT, VT]{k, v})
 }
 
-func (x *box) modelRemove(pred func(pair) bool) {
+func (x *box[KT, VT]) modelRemove(pred func(pair[KT, VT]) bool) {
 	kept := x.pairs[:0:0]
 	for _, p := range x.pairs {
 		if !pred(p) {
@@ -110,95 +151,106 @@ func (x *box) modelRemove(pred func(pair) bool) {
 	x.pairs = kept
 }
 
-func (x *box) String() string {
+func (x *box[KT, VT]) showPairs(ps []pair[KT, VT]) string {
 	s := "{"
-	for i, p := range x.pairs {
+	for i, p := range ps {
 		if i > 0 {
 			s += " "
 		}
-		s += fmt.Sprintf("%d:%d", p.k, p.v)
+		s += x.u.kname(p.k) + ":" + x.u.vname(p.v)
 	}
 	return s + "}"
 }
 
-// verify compares one box with its model over the whole universe (+1 probe
-// key/value that is never added).
-func verify(x *box, bi int, evals *int) string {
-	b := x.b
+func (x *box[KT, VT]) String() string { return x.showPairs(x.pairs) }
+
+// verify compares one box with its model over the whole universe (including
+// the probe-only elements).
+func verify[KT, VT comparable](x *box[KT, VT], bi int, evals *int) string {
+	b, u := x.b, x.u
 	if got := b.Len(); got != len(x.pairs) {
 		return fmt.Sprintf("box %d: Len() = %d, want %d (model %v)", bi, got, len(x.pairs), x)
 	}
-	for i := 0; i <= uniK; i++ {
-		k := K(i)
+	for _, k := range u.keys {
 		wv, wok := x.fwd(k)
 		gv, gok := b.GetForward(k)
 		if gok != wok || (wok && gv != wv) {
-			return fmt.Sprintf("box %d: GetForward(%d) = (%d,%v), want (%d,%v) (model %v)", bi, k, gv, gok, wv, wok, x)
+			return fmt.Sprintf("box %d: GetForward(%s) = (%s,%v), want (%s,%v) (model %v)", bi, u.kname(k), u.vname(gv), gok, u.vname(wv), wok, x)
 		}
 		if c := b.ContainsForward(k); c != wok {
-			return fmt.Sprintf("box %d: ContainsForward(%d) = %v, want %v (model %v)", bi, k, c, wok, x)
+			return fmt.Sprintf("box %d: ContainsForward(%s) = %v, want %v (model %v)", bi, u.kname(k), c, wok, x)
 		}
 		if gok { // the library's own two directions must be inverse
 			bk, bok := b.GetReverse(gv)
 			if !bok || bk != k {
-				return fmt.Sprintf("box %d: GetForward(%d) = (%d,true) but GetReverse(%d) = (%d,%v): directions are not inverse (model %v)", bi, k, gv, gv, bk, bok, x)
+				return fmt.Sprintf("box %d: GetForward(%s) = (%s,true) but GetReverse(%s) = (%s,%v): directions are not inverse (model %v)", bi, u.kname(k), u.vname(gv), u.vname(gv), u.kname(bk), bok, x)
 			}
 		}
 	}
-	for i := 0; i <= uniV; i++ {
-		v := V(100 + i)
+	for _, v := range u.vals {
 		wk, wok := x.rev(v)
 		gk, gok := b.GetReverse(v)
 		if gok != wok || (wok && gk != wk) {
-			return fmt.Sprintf("box %d: GetReverse(%d) = (%d,%v), want (%d,%v) (model %v)", bi, v, gk, gok, wk, wok, x)
+			return fmt.Sprintf("box %d: GetReverse(%s) = (%s,%v), want (%s,%v) (model %v)", bi, u.vname(v), u.kname(gk), gok, u.kname(wk), wok, x)
 		}
 		if c := b.ContainsReverse(v); c != wok {
-			return fmt.Sprintf("box %d: ContainsReverse(%d) = %v, want %v (model %v)", bi, v, c, wok, x)
+			return fmt.Sprintf("box %d: ContainsReverse(%s) = %v, want %v (model %v)", bi, u.vname(v), c, wok, x)
 		}
 		if gok {
 			fv, fok := b.GetForward(gk)
 			if !fok || fv != v {
-				return fmt.Sprintf("box %d: GetReverse(%d) = (%d,true) but GetForward(%d) = (%d,%v): directions are not inverse (model %v)", bi, v, gk, gk, fv, fok, x)
+				return fmt.Sprintf("box %d: GetReverse(%s) = (%s,true) but GetForward(%s) = (%s,%v): directions are not inverse (model %v)", bi, u.vname(v), u.kname(gk), u.kname(gk), u.vname(fv), fok, x)
 			}
 		}
 	}
-	*evals += 4*(uniK+1) + 1
+	*evals += 4*uniAll + 1
 	return ""
 }
 
-// rangeCheck runs Range on x.b; stop <= 0 means never stop.
-func rangeCheck(x *box, bi, stop int) string {
-	var seen []pair
+// rangeCheck runs Range on x.b; stop <= 0 means never stop. inner (may be nil)
+// is run inside the callback after the visit has been recorded, with the
+// 1-based call number; a non-empty result aborts the Range and is returned.
+func rangeCheck[KT, VT comparable](x *box[KT, VT], bi, stop int, name string, inner func(call int) string) string {
+	var seen []pair[KT, VT]
 	calls := 0
 	stopped := false
 	afterStop := 0
-	x.b.Range(func(k K, v V) bool {
+	innerMsg := ""
+	x.b.Range(func(k KT, v VT) bool {
 		if stopped {
 			afterStop++
 			return false
 		}
 		calls++
-		seen = append(seen, pair{k, v})
+		seen = append(seen, pair[KT, VT]{k, v})
+		if inner != nil {
+			if innerMsg = inner(calls); innerMsg != "" {
+				stopped = true
+				return false
+			}
+		}
 		if stop > 0 && calls == stop {
 			stopped = true
 			return false
 		}
 		return true
 	})
-	name := "Range"
+	if innerMsg != "" {
+		return innerMsg
+	}
 	if stop > 0 {
-		name = fmt.Sprintf("Range(stop at call %d)", stop)
+		name = fmt.Sprintf("%s(stop at call %d)", name, stop)
 	}
 	if afterStop > 0 {
 		return fmt.Sprintf("box %d: %s: f was called %d more time(s) after it returned false (model %v)", bi, name, afterStop, x)
 	}
 	for i, p := range seen {
 		if wv, ok := x.fwd(p.k); !ok || wv != p.v {
-			return fmt.Sprintf("box %d: %s visited (%d,%d) which is not a pair of the map (model %v, visited %v)", bi, name, p.k, p.v, x, seen)
+			return fmt.Sprintf("box %d: %s visited (%s,%s) which is not a pair of the map (model %v, visited %v)", bi, name, x.u.kname(p.k), x.u.vname(p.v), x, x.showPairs(seen))
 		}
 		for _, q := range seen[:i] {
 			if q == p {
-				return fmt.Sprintf("box %d: %s visited (%d,%d) twice (model %v, visited %v)", bi, name, p.k, p.v, x, seen)
+				return fmt.Sprintf("box %d: %s visited (%s,%s) twice (model %v, visited %v)", bi, name, x.u.kname(p.k), x.u.vname(p.v), x, x.showPairs(seen))
 			}
 		}
 	}
@@ -207,33 +259,103 @@ func rangeCheck(x *box, bi, stop int) string {
 		want = stop
 	}
 	if len(seen) != want {
-		return fmt.Sprintf("box %d: %s visited %d pair(s), want %d (model %v, visited %v)", bi, name, len(seen), want, x, seen)
+		return fmt.Sprintf("box %d: %s visited %d pair(s), want %d (model %v, visited %v)", bi, name, len(seen), want, x, x.showPairs(seen))
 	}
 	return ""
 }
 
-func Run(c Case) pbt.Outcome {
-	var boxes []*box
+// nestedCheck: a Range whose callback makes only READ-ONLY calls on the same
+// Bimap (the statement's "Range visits every pair exactly once" does not stop
+// holding because the callback looks at the map; mutators inside a callback
+// are outside the checked domain and never generated).
+//
+//	variant 0: a full inner Range at outer call number `at` only
+//	variant 1: a full inner Range at every outer call; the inner Range at outer call 1 runs a third-level full Range at its call `at`
+//	variant 2: an inner Range stopped after 1 + (call mod 3) visits, at every outer call
+//	variant 3: Clone (+ Len of the clone), Len, GetForward/GetReverse/Contains* over the universe, at every outer call
+//	variant 4: a full Range over every OTHER live box (clones / originals), and an early-stopped one, at every outer call
+func nestedCheck[KT, VT comparable](x *box[KT, VT], bi, variant, at int, evals *int, others []*box[KT, VT]) string {
+	inner := func(call int) string {
+		switch variant {
+		case 0:
+			if call != at {
+				return ""
+			}
+			return rangeCheck(x, bi, 0, fmt.Sprintf("Range(all) nested in the callback of Range at its call %d", call), nil)
+		case 1:
+			var third func(int) string
+			if call == 1 {
+				third = func(c2 int) string {
+					if c2 != at {
+						return ""
+					}
+					return rangeCheck(x, bi, 0, "Range(all) nested two levels deep", nil)
+				}
+			}
+			return rangeCheck(x, bi, 0, fmt.Sprintf("Range(all) nested in the callback of Range at its call %d", call), third)
+		case 2:
+			return rangeCheck(x, bi, 1+call%3, fmt.Sprintf("Range nested in the callback of Range at its call %d", call), nil)
+		case 4:
+			for oi, o := range others {
+				if o == x {
+					continue
+				}
+				if m := rangeCheck(o, oi, 0, fmt.Sprintf("Range(all) nested in the callback of box %d's Range at its call %d", bi, call), nil); m != "" {
+					return m
+				}
+				if m := rangeCheck(o, oi, 1+call%3, fmt.Sprintf("Range nested in the callback of box %d's Range at its call %d", bi, call), nil); m != "" {
+					return m
+				}
+			}
+			return ""
+		default:
+			if got := x.b.Len(); got != len(x.pairs) {
+				return fmt.Sprintf("box %d: Len() inside a Range callback = %d, want %d (model %v)", bi, got, len(x.pairs), x)
+			}
+			cl := x.b.Clone()
+			if got := cl.Len(); got != len(x.pairs) {
+				return fmt.Sprintf("box %d: Clone() taken inside a Range callback has Len() = %d, want %d (model %v)", bi, got, len(x.pairs), x)
+			}
+			y := &box[KT, VT]{b: &cl, u: x.u, pairs: x.pairs}
+			if m := verify(y, bi, evals); m != "" {
+				return "Clone() taken inside a Range callback: " + m
+			}
+			if m := verify(x, bi, evals); m != "" {
+				return "inside a Range callback: " + m
+			}
+			return ""
+		}
+	}
+	return rangeCheck(x, bi, 0, fmt.Sprintf("Range(all) with read-only callback variant %d", variant), inner)
+}
+
+func Run(c Case) pbt.Outcome { return runSmall(c, uniDefault) }
+
+func runSmall[KT, VT comparable](c Case, u *universe[KT, VT]) pbt.Outcome {
+	var boxes []*box[KT, VT]
 	switch mod(c.Start, 3) {
 	case 0:
-		var b maps.Bimap[K, V]
-		boxes = append(boxes, &box{b: &b})
+		var b maps.Bimap[KT, VT]
+		boxes = append(boxes, &box[KT, VT]{b: &b, u: u})
 	case 1:
-		var z maps.Bimap[K, V]
+		var z maps.Bimap[KT, VT]
 		cl := z.Clone()
-		boxes = append(boxes, &box{b: &cl})
+		boxes = append(boxes, &box[KT, VT]{b: &cl, u: u})
 	case 2:
-		var o maps.Bimap[K, V]
-		o.Add(0, 100)
-		o.Add(1, 101)
+		var o maps.Bimap[KT, VT]
+		ob := &box[KT, VT]{b: &o, u: u}
+		for i := 0; i < 2; i++ {
+			o.Add(u.keys[i], u.vals[i])
+			ob.modelAdd(u.keys[i], u.vals[i])
+		}
 		cl := o.Clone()
-		boxes = append(boxes, &box{b: &cl, pairs: []pair{{0, 100}, {1, 101}}}, &box{b: &o, pairs: []pair{{0, 100}, {1, 101}}})
+		boxes = append(boxes, &box[KT, VT]{b: &cl, u: u, pairs: append([]pair[KT, VT](nil), ob.pairs...)}, ob)
 	}
 	evals := 0
 	verifyAll := func(i int, what string) string {
 		for bi, x := range boxes {
 			if m := verify(x, bi, &evals); m != "" {
-				return fmt.Sprintf("after op %d (%s): %s", i, what, m)
+				return fmt.Sprintf("[%s] after op %d (%s): %s", u.name, i, what, m)
 			}
 		}
 		return ""
@@ -242,10 +364,11 @@ func Run(c Case) pbt.Outcome {
 		return pbt.Fail("%s", m)
 	}
 	var (
-		addFresh, addSame, collKey, collVal, collBoth, collBothSamePartner int
-		clones, mutAfterClone, ranges, rangeStops, rangeStopsEarly         int
-		remHit, remMiss, clears, clearsNonEmpty                            int
-		maxPairs                                                           int
+		addFresh, addSame, collKey, collVal, collBoth              int
+		clones, mutAfterClone, ranges, rangeStops, rangeStopsEarly int
+		remHit, remMiss, clears, clearsNonEmpty                    int
+		nested, nestedBig                                          int
+		maxPairs                                                   int
 	)
 	for i, op := range c.Ops {
 		h := mod(op.H, len(boxes))
@@ -253,12 +376,12 @@ func Run(c Case) pbt.Outcome {
 		var what string
 		switch mod(op.K, nOps) {
 		case opAdd:
-			k, v := key(op.A), val(op.B)
-			what = fmt.Sprintf("box %d: Add(%d,%d)", h, k, v)
+			k, v := u.key(op.A), u.val(op.B)
+			what = fmt.Sprintf("box %d: Add(%s,%s)", h, u.kname(k), u.vname(v))
 			oldV, kHit := x.fwd(k)
-			oldK, vHit := x.rev(v)
+			_, vHit := x.rev(v)
 			switch {
-			case kHit && vHit && oldV == v: // the very same pair (then oldK == k too)
+			case kHit && vHit && oldV == v: // the very same pair
 				addSame++
 			case kHit && vHit:
 				collBoth++
@@ -269,35 +392,34 @@ func Run(c Case) pbt.Outcome {
 			default:
 				addFresh++
 			}
-			_ = oldK
 			x.b.Add(k, v)
 			x.modelAdd(k, v)
 			if len(boxes) > 1 {
 				mutAfterClone++
 			}
 		case opRemFwd:
-			k := key(op.A)
-			what = fmt.Sprintf("box %d: RemoveForward(%d)", h, k)
+			k := u.key(op.A)
+			what = fmt.Sprintf("box %d: RemoveForward(%s)", h, u.kname(k))
 			if _, ok := x.fwd(k); ok {
 				remHit++
 			} else {
 				remMiss++
 			}
 			x.b.RemoveForward(k)
-			x.modelRemove(func(p pair) bool { return p.k == k })
+			x.modelRemove(func(p pair[KT, VT]) bool { return p.k == k })
 			if len(boxes) > 1 {
 				mutAfterClone++
 			}
 		case opRemRev:
-			v := val(op.B)
-			what = fmt.Sprintf("box %d: RemoveReverse(%d)", h, v)
+			v := u.val(op.B)
+			what = fmt.Sprintf("box %d: RemoveReverse(%s)", h, u.vname(v))
 			if _, ok := x.rev(v); ok {
 				remHit++
 			} else {
 				remMiss++
 			}
 			x.b.RemoveReverse(v)
-			x.modelRemove(func(p pair) bool { return p.v == v })
+			x.modelRemove(func(p pair[KT, VT]) bool { return p.v == v })
 			if len(boxes) > 1 {
 				mutAfterClone++
 			}
@@ -316,7 +438,7 @@ func Run(c Case) pbt.Outcome {
 			what = fmt.Sprintf("box %d: Clone()", h)
 			clones++
 			cl := x.b.Clone()
-			nb := &box{b: &cl, pairs: append([]pair(nil), x.pairs...)}
+			nb := &box[KT, VT]{b: &cl, u: u, pairs: append([]pair[KT, VT](nil), x.pairs...)}
 			if len(boxes) < maxBoxes {
 				boxes = append(boxes, nb)
 			} else {
@@ -329,8 +451,8 @@ func Run(c Case) pbt.Outcome {
 		case opRange:
 			what = fmt.Sprintf("box %d: Range(all)", h)
 			ranges++
-			if m := rangeCheck(x, h, 0); m != "" {
-				return pbt.Fail("op %d: %s", i, m)
+			if m := rangeCheck(x, h, 0, "Range", nil); m != "" {
+				return pbt.Fail("[%s] op %d: %s", u.name, i, m)
 			}
 		case opRangeStop:
 			stop := 1 + mod(op.A, 3)
@@ -339,30 +461,40 @@ func Run(c Case) pbt.Outcome {
 			if stop < len(x.pairs) {
 				rangeStopsEarly++
 			}
-			if m := rangeCheck(x, h, stop); m != "" {
-				return pbt.Fail("op %d: %s", i, m)
+			if m := rangeCheck(x, h, stop, "Range", nil); m != "" {
+				return pbt.Fail("[%s] op %d: %s", u.name, i, m)
+			}
+		case opNested:
+			variant, at := mod(op.B, 5), 1+mod(op.A, 4)
+			what = fmt.Sprintf("box %d: Range with read-only callback (variant %d, at %d)", h, variant, at)
+			nested++
+			if len(x.pairs) >= 3 {
+				nestedBig++
+			}
+			if m := nestedCheck(x, h, variant, at, &evals, boxes); m != "" {
+				return pbt.Fail("[%s] op %d: %s", u.name, i, m)
 			}
 		case opProbe:
-			k, v := K(mod(op.A, 6)), V(100+mod(op.B, 6))
-			what = fmt.Sprintf("box %d: probe key %d value %d", h, k, v)
+			k, v := u.keys[mod(op.A, uniAll)], u.vals[mod(op.B, uniAll)]
+			what = fmt.Sprintf("box %d: probe key %s value %s", h, u.kname(k), u.vname(v))
 			wv, wok := x.fwd(k)
 			if gv, gok := x.b.GetForward(k); gok != wok || (wok && gv != wv) {
-				return pbt.Fail("op %d: box %d: GetForward(%d) = (%d,%v), want (%d,%v) (model %v)", i, h, k, gv, gok, wv, wok, x)
+				return pbt.Fail("[%s] op %d: box %d: GetForward(%s) = (%s,%v), want (%s,%v) (model %v)", u.name, i, h, u.kname(k), u.vname(gv), gok, u.vname(wv), wok, x)
 			}
 			if got := x.b.ContainsForward(k); got != wok {
-				return pbt.Fail("op %d: box %d: ContainsForward(%d) = %v, want %v (model %v)", i, h, k, got, wok, x)
+				return pbt.Fail("[%s] op %d: box %d: ContainsForward(%s) = %v, want %v (model %v)", u.name, i, h, u.kname(k), got, wok, x)
 			}
 			wk, wok2 := x.rev(v)
 			if gk, gok := x.b.GetReverse(v); gok != wok2 || (wok2 && gk != wk) {
-				return pbt.Fail("op %d: box %d: GetReverse(%d) = (%d,%v), want (%d,%v) (model %v)", i, h, v, gk, gok, wk, wok2, x)
+				return pbt.Fail("[%s] op %d: box %d: GetReverse(%s) = (%s,%v), want (%s,%v) (model %v)", u.name, i, h, u.vname(v), u.kname(gk), gok, u.kname(wk), wok2, x)
 			}
 			if got := x.b.ContainsReverse(v); got != wok2 {
-				return pbt.Fail("op %d: box %d: ContainsReverse(%d) = %v, want %v (model %v)", i, h, v, got, wok2, x)
+				return pbt.Fail("[%s] op %d: box %d: ContainsReverse(%s) = %v, want %v (model %v)", u.name, i, h, u.vname(v), got, wok2, x)
 			}
 		case opLen:
 			what = fmt.Sprintf("box %d: Len()", h)
 			if got := x.b.Len(); got != len(x.pairs) {
-				return pbt.Fail("op %d: box %d: Len() = %d, want %d (model %v)", i, h, got, len(x.pairs), x)
+				return pbt.Fail("[%s] op %d: box %d: Len() = %d, want %d (model %v)", u.name, i, h, got, len(x.pairs), x)
 			}
 		}
 		evals++
@@ -397,10 +529,11 @@ func Run(c Case) pbt.Outcome {
 	lab(ranges > 0, "range-all")
 	lab(rangeStopsEarly > 0, "range-stopped-early")
 	lab(rangeStops > rangeStopsEarly, "range-stop-not-reached")
+	lab(nested > 0, "range-with-readonly-callback")
+	lab(nestedBig > 0, "nested-range-on>=3-pairs")
 	lab(maxPairs >= 4, "full(4 pairs)")
 	lab(maxPairs == 3, "max-3-pairs")
 	lab(maxPairs <= 2, "max<=2-pairs")
-	_ = collBothSamePartner
 	switch {
 	case len(c.Ops) >= 25:
 		out.Labels = append(out.Labels, "ops>=25")
@@ -415,7 +548,7 @@ func Run(c Case) pbt.Outcome {
 var kindTable = []int{
 	opAdd, opAdd, opAdd, opAdd, opAdd, opAdd, opAdd, opAdd, opAdd, opAdd,
 	opRemFwd, opRemFwd, opRemRev, opRemRev, opClear,
-	opClone, opClone, opRange, opRangeStop, opProbe, opLen,
+	opClone, opClone, opRange, opRangeStop, opProbe, opLen, opNested,
 }
 
 var opGen = rapid.Custom(func(t *rapid.T) Op {
@@ -432,22 +565,26 @@ var opGen = rapid.Custom(func(t *rapid.T) Op {
 	return op
 })
 
+func genCase(t *rapid.T) Case {
+	c := Case{Start: rapid.IntRange(0, 2).Draw(t, "start")}
+	// rapid's IntRange and SliceOfN lean heavily towards short lists; a drawn minimum length (max of two
+	// draws) flattens the length distribution while SliceOfN keeps element-wise shrinking.
+	lo := rapid.IntRange(0, 45).Draw(t, "minops")
+	if l2 := rapid.IntRange(0, 45).Draw(t, "minops2"); l2 > lo {
+		lo = l2
+	}
+	c.Ops = rapid.SliceOfN(opGen, lo, 50).Draw(t, "ops")
+	if c.Ops == nil {
+		c.Ops = []Op{}
+	}
+	return c
+}
+
+const randMix = "rapid: start 0..2, 0..50 ops (Add 45%, RemoveForward/RemoveReverse 18%, Clear 5%, Clone 9%, Range/Range-with-stop 9%, Range with read-only nested calls 5%, probes/Len 9%), box/key/value raw ints reduced at run time; "
+
 var specRand = pbt.Register(&pbt.Spec[Case]{
-	Property: "C11", Name: "C11.rand", Rule: "rapid: start 0..2, 0..50 ops (Add 48%, RemoveForward/RemoveReverse 19%, Clear 5%, Clone 10%, Range/Range-with-stop 10%, probes/Len 10%), box/key/value raw ints reduced at run time; " + rule,
-	Gen: func(t *rapid.T) Case {
-		c := Case{Start: rapid.IntRange(0, 2).Draw(t, "start")}
-		// rapid's IntRange and SliceOfN lean heavily towards short lists; a drawn minimum length (max of two
-		// draws) flattens the length distribution while SliceOfN keeps element-wise shrinking.
-		lo := rapid.IntRange(0, 45).Draw(t, "minops")
-		if l2 := rapid.IntRange(0, 45).Draw(t, "minops2"); l2 > lo {
-			lo = l2
-		}
-		c.Ops = rapid.SliceOfN(opGen, lo, 50).Draw(t, "ops")
-		if c.Ops == nil {
-			c.Ops = []Op{}
-		}
-		return c
-	},
+	Property: "C11", Name: "C11.rand", Rule: randMix + "Bimap[K,V] with K, V distinct named int types, keys 0..3 (+4,5 probe-only), values 100..103 (+104,105); " + rule,
+	Gen: genCase,
 	Run: Run, Quick: 30000, Thorough: 200000,
 })
 
